@@ -19,4 +19,7 @@ void *vf_qos_map_egress(void);
 void *vf_qos_map_ingress(void);
 void *vf_qos_map_stats(void);
 int vf_run_qos(int ingress, void *frame, uint32_t len, uint32_t skb_len, uint32_t *priority);
+void *vf_xdp_map(int which);
+int vf_xdp_sizeof(int which);
+int vf_run_xdp(void *frame, uint32_t len, uint32_t room, uint32_t *out_len);
 #endif
